@@ -223,7 +223,8 @@ def s4(ctx, rep):
         sf = "self." + fld
         hits = []
         for n in true_returns:
-            at = ctx.facts(f).at(n.id)
+            from .common import dom_guard
+            at = set(ctx.facts(f).at(n.id)) | set(dom_guard(ctx, f, n.id))
             nn = any(a[0] == "is" and a[1] == sf and a[2] == "None" and a[3] is False for a in at)
             if not nn:
                 continue
